@@ -101,6 +101,24 @@ class FuncFacts:
         self.rd = ReachingDefs(self.cfg)
         self._memo: dict[tuple, tuple] = {}
         self._budget = 0
+        self._ctx = None
+
+    def is_object_receiver(self, recv: ast.expr) -> bool:
+        """receiver of a method call is an xeofs object (typed attribute / typed local), so that the
+        call is a function of its arguments rather than a method of a data value"""
+        pm = getattr(self.fn.module, "pm", None)
+        if pm is None:
+            return False
+        if self._ctx is None:
+            from .resolve import Ctx
+
+            self._ctx = Ctx(pm, self.fn)
+            self._ctx.local_types()
+        try:
+            t = self._ctx.expr_type(recv)
+        except Exception:
+            return False
+        return t is not None
 
     # ------------------------------------------------------------------ util
     def node_of(self, expr: ast.AST) -> int:
@@ -349,7 +367,8 @@ class FuncFacts:
         args = [(i, a) for i, a in enumerate(e.args)] + [(k.arg or "**", k.value) for k in e.keywords]
         if isinstance(f, ast.Attribute) and not self.is_static_callee(f.value) and not (
             isinstance(f.value, ast.Name) and f.value.id in ("self", "cls")
-        ) and not (isinstance(f.value, ast.Call) and isinstance(f.value.func, ast.Name) and f.value.func.id == "super"):
+        ) and not (isinstance(f.value, ast.Call) and isinstance(f.value.func, ast.Name) and f.value.func.id == "super") \
+                and not self.is_object_receiver(f.value):
             # method call on a value: the receiver is the spine
             out += self._ext(self._paths(f.value, at, stack, env, spine), Op("method", f.attr, e))
             if not spine:
